@@ -122,14 +122,17 @@ def extract_iter(
         ):
             origin, current, depth = to_unwrap.popleft()
             if isinstance(current, types.FrameType):
-                if not isinstance(
-                    origin,
-                    (
-                        types.CoroutineType,
-                        types.GeneratorType,
-                        types.AsyncGeneratorType,
-                    ),
-                ):
+                # Only record a coroutine/generator as the origin of its own
+                # frame, not of the frames it is currently calling
+                if isinstance(origin, types.CoroutineType):
+                    origin_frame = origin.cr_frame
+                elif isinstance(origin, types.GeneratorType):
+                    origin_frame = origin.gi_frame
+                elif isinstance(origin, types.AsyncGeneratorType):
+                    origin_frame = origin.ag_frame
+                else:
+                    origin_frame = None
+                if origin_frame is not current:
                     origin = None
                 current = Frame(pyframe=current, origin=origin)
             if isinstance(current, Frame):
